@@ -215,3 +215,40 @@ theorem parseHead_complete (P : ProtoParams) (hP : P.WF) (f : Frame) (hf : f.Val
   all_goals first | omega | contradiction | (simp)
 
 end SuplaVerif
+
+namespace SuplaVerif
+open Bytes
+
+theorem enc_append (a b : List Frame) : Frame.enc (a ++ b) = Frame.enc a ++ Frame.enc b := by
+  simp [Frame.enc]
+
+theorem enc_single (f : Frame) : Frame.enc [f] = f.bytes := by simp [Frame.enc]
+
+/-- the greedy frame list of `enc fs ++ tail` starts with `fs` -/
+theorem goodFramesFuel_enc (P : ProtoParams) (hP : P.WF) (fs : List Frame) (hv : ∀ f ∈ fs, f.Valid P)
+    (tail : Bytes) (n : Nat) (hn : fs.length ≤ n) :
+    goodFramesFuel P n (Frame.enc fs ++ tail) = fs ++ goodFramesFuel P (n - fs.length) tail := by
+  induction fs generalizing n with
+  | nil => simp [Frame.enc]
+  | cons f fs ih =>
+    cases n with
+    | zero => simp at hn
+    | succ n =>
+      have henc : Frame.enc (f :: fs) ++ tail = f.bytes ++ (Frame.enc fs ++ tail) := by
+        simp [Frame.enc]
+      rw [henc]
+      simp only [goodFramesFuel]
+      rw [parseHead_complete P hP f (hv f (by simp)) _]
+      simp only
+      rw [ih (fun g hg => hv g (by simp [hg])) n (by simpa using hn)]
+      simp
+
+theorem enc_length_ge (fs : List Frame) : fs.length ≤ (Frame.enc fs).length := by
+  induction fs with
+  | nil => simp [Frame.enc]
+  | cons f fs ih =>
+    have : Frame.enc (f :: fs) = f.bytes ++ Frame.enc fs := by simp [Frame.enc]
+    rw [this, List.length_append, Frame.bytes_length]
+    simp only [List.length_cons]; omega
+
+end SuplaVerif
